@@ -30,6 +30,37 @@ pub(crate) fn validate_values(
     value_of_correct_type(diagnostics, schema, ty, &argument.value, var_defs);
 }
 
+/// Input objects must not contain more than one field of the same name. This does not depend on
+/// the expected type: it applies to every object literal, however deeply nested.
+pub(crate) fn validate_unique_input_fields(
+    diagnostics: &mut DiagnosticList,
+    value: &Node<ast::Value>,
+) {
+    match &**value {
+        ast::Value::List(items) => {
+            for item in items {
+                validate_unique_input_fields(diagnostics, item);
+            }
+        }
+        ast::Value::Object(fields) => {
+            for (index, (name, field_value)) in fields.iter().enumerate() {
+                if let Some((original, _)) = fields[..index].iter().find(|(n, _)| n == name) {
+                    diagnostics.push(
+                        name.location(),
+                        DiagnosticData::UniqueInputField {
+                            name: name.clone(),
+                            original_definition: original.location(),
+                            redefined_definition: name.location(),
+                        },
+                    );
+                }
+                validate_unique_input_fields(diagnostics, field_value);
+            }
+        }
+        _ => {}
+    }
+}
+
 /// A variable used as a ListValue entry or as the value of an ObjectField must be allowed in
 /// that position (IsVariableUsageAllowed), like a variable used directly as an argument value.
 /// Returns `false` after reporting a variable whose type does not fit.
